@@ -99,13 +99,13 @@ theorem generalLemma_no_panic (a : SAnn) (s : String) : generalLemma a ≠ .pani
     · cases h
   · cases h
 
-theorem outlineStep_no_panic (m : PlaceholderMap) (st : Outcome (ProofOutline × List Pred)) (a : SAnn)
-    (h : ∀ s, st ≠ .panic s) : ∀ s, Outline.outlineStep m st a ≠ .panic s := by
+theorem outlineStep_no_panic (m : PlaceholderMap) (st : Outcome (ProofOutline × List Pred × List Pred)) (a : SAnn)
+    (h : ∀ s, st ≠ .panic s) : ∀ s, outlineStep m st a ≠ .panic s := by
   intro s hs
-  unfold Outline.outlineStep at hs
+  unfold outlineStep at hs
   cases st with
   | ok x =>
-    obtain ⟨po, taken⟩ := x
+    obtain ⟨po, taken, lem⟩ := x
     simp only at hs
     split at hs
     · split at hs
@@ -119,7 +119,9 @@ theorem outlineStep_no_panic (m : PlaceholderMap) (st : Outcome (ProofOutline ×
       · rename_i s' hgl; exact generalLemma_no_panic _ _ hgl
       · cases hs
     · split at hs
-      · split at hs <;> cases hs
+      · split at hs
+        · cases hs
+        · split at hs <;> cases hs
       · cases hs
       · rename_i s' hcd; exact checkDefinition_no_panic _ _ _ hcd
       · cases hs
@@ -132,14 +134,14 @@ theorem outlineStep_no_panic (m : PlaceholderMap) (st : Outcome (ProofOutline ×
 theorem proofOutlineFrom_no_panic (spec : Specification) (taken : List Pred) (m : PlaceholderMap) (s : String) :
     proofOutlineFrom spec taken m ≠ .panic s := by
   intro h
-  rw [Outline.proofOutlineFrom_eq] at h
-  have hfold : ∀ (l : Specification) (st : Outcome (ProofOutline × List Pred)), (∀ s, st ≠ .panic s) →
-      ∀ s, l.foldl (Outline.outlineStep m) st ≠ .panic s := by
+  unfold proofOutlineFrom at h
+  have hfold : ∀ (l : Specification) (st : Outcome (ProofOutline × List Pred × List Pred)), (∀ s, st ≠ .panic s) →
+      ∀ s, l.foldl (outlineStep m) st ≠ .panic s := by
     intro l
     induction l with
     | nil => intro st h s; exact h s
     | cons a l ih => intro st h s; simp only [List.foldl_cons]; exact ih _ (outlineStep_no_panic m st a h) s
-  cases hf : spec.foldl (Outline.outlineStep m) (.ok ({}, taken)) with
+  cases hf : spec.foldl (outlineStep m) (.ok ({}, taken, [])) with
   | ok x => simp [hf] at h
   | err e => simp [hf] at h
   | panic s' => exact hfold spec _ (fun s hs => by cases hs) s' hf
